@@ -179,6 +179,9 @@ class Evaluator:
                 return l & r
         except ZeroDivisionError:
             raise EvalRaise("ZeroDivisionError", e)
+        except ValueError:
+            # stand-ins raise what the library they model raises (numpy: operands could not be broadcast)
+            raise EvalRaise("ValueError", e)
         except TypeError:
             raise Unknown("binop on incompatible values")
         raise Unknown("binary op")
